@@ -4,32 +4,44 @@ from core import Corr, Fail, REPO
 from props import waterlib
 from props.waterlib import fl, fls, b
 
-PROP_FILES = ["Prop_C09"]
+PROP_FILES = ["Prop_C09", "Prop_C09b"]
 RULE = ("PhytoOut transitions (state before/after the call in sub-step 1) of traced in-process runs of generated crop "
         "rotations over every shipped annual main-crop parameter set (SM, SOY + 8 varieties, SW, OA, WW, WG, WR, TR, WRA, K, "
         "ZR + chrnew, LUP), classic and YAML parameter format, CO2 methods 1-3, N supply 0..400 kg/ha, shipped soils incl. "
         "10/30 cm root limits, weather scenarios historical/extreme rain/drought/frost; days that hit a clamp (organ floor, "
         "LAI zero, REDUK < 1, root limit, uptake caps, fixation, stage advance) are always compared, plain days are sampled; "
-        "a case is non-trivial when distinct and inside the growth block")
+        "a case is non-trivial when distinct and inside the growth block; on one emitted day in four the real PhytoOut is replayed on copies "
+        "with every other N-content function NGEFKT = 0..9; branch coverage of the root/shoot N update is listed in input_distribution")
 TRUSTED = ["binary64 semantics of Go on amd64 (no fused multiply-add) = Coq primitive floats",
            "the harness' shadow of CropSharedVars (real parameter reader + real PhytoOut replayed on a copy, checked equal to the run every day)",
            "oracle values mirrored in the harness from crop.go: devprog, exp argument of REDUK, root() (validated against POTROOTINGDEPTH), maxup, MASS[i], DIFF[i]",
            "R->F gap: range theorems are proved in exact real arithmetic; at binary64 the ranges are observed on every traced crop day (tolerance 1e-9 on [0,1] factors)"]
-ASSUMPTIONS = ["photosynthesis, respiration, N-content functions, vernalisation/day-length factors, exp/log/pow and the root function are NOT modelled: "
-               "their results enter the model as oracle inputs (GTW, maintenance terms, FV, FP, devprog, e, Qrez, maxup, MASS, DIFF)",
-               "finiteness and non-negativity of tissue N concentrations (GEHOB, WUGEH), OBMAS, PESUM are NOT proved: observed on every traced crop day only",
+ASSUMPTIONS = ["photosynthesis, respiration, vernalisation/day-length factors, exp/log/pow and the root function are NOT modelled: "
+               "their results enter the model as oracle inputs (GTW, maintenance terms, FV, FP, devprog, every Exp/Pow/Log value, Qrez, maxup, MASS, DIFF)",
+               "GEHOB/WUGEH >= 0 is proved only under 'root share of the uptake <= 1' and 'old root N within the crop N'; without the first "
+               "it is refuted (C09_gehob_negative_refuted = finding F24) and observed on every traced crop day",
+               "parameter preconditions not guarded by the code are explicit hypotheses: tendsum > 200 (N-content function 8), RGA > 0 (function 5), "
+               "partition rows summing to 1 (re-proved for every shipped file on each run)",
                "permanent crops (regrowth resets the stage) and catch crops are outside the claim",
-               "GEHOB/WUGEH updates (crop.go:741-763) are covered by the post-condition oracle only, not by the model"]
-LEVEL_TEXT = ("PARTIAL proof. Coq proofs for all inputs of the decision/clamp logic inside PhytoOut: the stage index never decreases and "
-              "the recorded stage dates are ordered over any sequence of days (any numeric type), organ masses/LAI/assimilate pool "
-              "stay non-negative, 0 <= REDUK <= 1 (with the real-analysis lemma exp(1+1/(AUX-1)) in (0,1) for AUX in (0,1)), "
-              "1 <= WURZ <= min(N, max(1, round(WURZMAX*WUMAXPF/11))), uptake per layer >= 0 and demand <= 6 kg N/ha/day. The same "
-              "Gallina kernels are executed on binary64 and compared bit for bit with traced PhytoOut transitions of real runs. "
-              "Finiteness/non-negativity of tissue N concentrations and biomass sums depend on oracle-valued functions and are "
-              "covered by the property oracle on long runs only.")
-LEVEL_NOTE = ("Partial: only the clamp/decision fragments are modelled (five kernels, tied by trace, not by calling the fragments in "
-              "isolation); photosynthesis/respiration/N-content functions are oracle inputs; GEHOB, WUGEH, OBMAS, PESUM, TRREL, ETREL "
-              "validity is oracle-only. Reals axioms of the standard library; Coq-Interval not needed (exp facts from Rpower/Rtrigo).")
+               "unmodelled parts of crop.go (observed through the oracle only or not at all): sowing block 61-127, FKC/BBCH 138-144 and 292-312, SWC sums 159-180, "
+               "automatic harvest 182-205 and 549-555, radia call/GPP 212-224, protein targets/vern/FP/devprog 229-285, CalulateDevelopmentStages 290, "
+               "stress counters 441-451, RespDay 461, LAIMAX 488-490, dead-leaf N to NFOS/NAOS 495-496, permanent-crop regrowth 521-541, WUMM 563-568 and "
+               "658-661, root() call 580-581, root radius/density/WUANT 608-651, maxup 662-681, MASS/D/DIFF 688-699, SimulateFertilizationAfterPrognose 701, "
+               "MASSUM/DIFFSUM 717-718, SCHNORR/NFIXSUM 739-740, radia 767-979, root 981-1003, vern 1005-1040"]
+LEVEL_TEXT = ("PARTIAL proof, two layers. Coq proofs for all inputs of the decision/clamp logic inside PhytoOut: the stage index never decreases and "
+              "the recorded stage dates are ordered over any sequence of days (any numeric type); organ masses/LAI/assimilate pool stay "
+              "non-negative; 0 <= REDUK <= 1 (with exp(1+1/(AUX-1)) in (0,1)); 1 <= WURZ <= min(N, max(1, round(WURZMAX*WUMAXPF/11))); uptake "
+              "per layer >= 0, <= supply, summed <= demand <= 6 kg N/ha/day; GEHMIN, GEHMAX > 0 for all nine N-content functions; every "
+              "division of the modelled N code has a positive denominator under the code's own guards; GEHOB, WUGEH >= 0 when the root share of "
+              "the uptake is <= 1 (refuted otherwise: F24); conservation of dry matter: the organs receive exactly 0.7*GTW*REDUK minus "
+              "maintenance when the partition rows sum to 1 (re-proved for all 59 shipped parameter files each run) and the organ update "
+              "changes mass by growth - death + handed-on dead mass + 0.1 kg per floored organ. The same Gallina kernels are executed on "
+              "binary64 and compared bit for bit with traced PhytoOut transitions of real runs (all ten N-content branches by replaying the "
+              "real code with another NGEFKT). Finiteness of the state and the [0,1] range of TRREL/ETREL are observed on traces only.")
+LEVEL_NOTE = ("Partial: the modelled fragments are tied by trace (shadow replay of the exported PhytoOut), not by calling fragments in isolation; "
+              "photosynthesis/respiration/root/vernalisation functions are oracle inputs; GEHOB >= 0 needs the root-share hypothesis the code "
+              "does not establish (F24); no rounding-error bound between R and binary64 (identities observed to 1e-9 on every traced crop day). "
+              "Reals axioms of the standard library; Coq-Interval (primitive floats) only in CropNProofs.lg_bound.")
 TECHNIQUE = "Coq proof (case analysis on clamps, induction over days, lra/nra, exp monotonicity) + bit-exact trace correspondence + property oracle on traced rotations"
 
 # ---------------------------------------------------------------------------------------------
@@ -261,9 +273,9 @@ def run(ctx):
     with open(lf, "w") as f:
         for r_ in runs:
             f.write(json.dumps({"args": r_["args"], "yml": r_["yml"], "tag": r_["tag"]}) + "\n")
-    every = 30 if ctx.thorough else 6
+    every = 30 if ctx.thorough else 8
     rc, cases, orc, other, err = waterlib.run_harness(ctx, "c09", ["-work", ex, "-lines", lf, "-seed", str(ctx.seed), "-every", str(every),
-                                                                    "-max-interesting", "8" if ctx.thorough else "25"], timeout=3000)
+                                                                    "-max-interesting", "8" if ctx.thorough else "10"], timeout=3000)
     _plan_cache[key] = (ex, runs, rc, cases, orc, err)
     return _plan_cache[key]
 
@@ -298,7 +310,23 @@ def obs_record(d):
           % (b(d["grown"]), b(d["zrk"]), b(d["legum"]), fl(d["gehmax"]), fl(d["o_obmas"]), fl(d["o_wumas"]), fl(d["o_worg"][3]), fl(d["wgmax"]),
              fl(d["o_pesum"]), fl(d["dt"]), fl(d["dz"]), fls(d["wudich"]), fl(d["maxup"]), d["o_wurz"], fl(d["grw"]), fls(d["mass"]),
              fls(d["diff"]), fls(d["c1"])))
-    return ("{| ob_si := %s; ob_k0 := %d%%nat; ob_sum := %s; ob_dev := %s; ob_phyllo := %s; ob_o_k := %d%%nat; ob_o_sum := %s; ob_o_dev := %s; "
+    def tab(t):
+        return "[" + "; ".join(fls(r) for r in t) + "]"
+
+    def ncrec(c):
+        return ("{| nco_in := {| nc_fkt := (%d)%%Z; nc_wrsg := %s; nc_phyllo := %s; nc_obmas := %s; nc_worg3 := %s; nc_suborg := %s; "
+                "nc_rga := %s; nc_rgb := %s; nc_tendsum := %s; nc_lg := %s; nc_o1 := %s; nc_o2 := %s |}; nco_a1 := %s; nco_a2 := %s; "
+                "nco_min0 := %s; nco_max0 := %s; nco_o_min := %s; nco_o_max := %s |}"
+                % (c["fkt"], b(c["wrsg"]), fl(c["phyllo"]), fl(c["obmas"]), fl(c["worg3"]), fl(c["suborg"]), fl(c["rga"]), fl(c["rgb"]),
+                   fl(c["tendsum"]), fl(c["lg"]), fl(c["o1"]), fl(c["o2"]), fl(c["a1"]), fl(c["a2"]), fl(c["min0"]), fl(c["max0"]),
+                   fl(c["o_min"]), fl(c["o_max"])))
+    nq = ("{| nq_zrk := %s; nq_wumalt := %s; nq_obalt := %s; nq_gehalt := %s; nq_wumas := %s; nq_obmas := %s; nq_worg3 := %s; "
+          "nq_wugeh := %s; nq_wgmax := %s; nq_pesum := %s; nq_sumpe := 0; nq_nfix := %s |}"
+          % (b(d["zrk"]), fl(d["wumalt"]), fl(d["obalt"]), fl(d["gehalt"]), fl(d["o_wumas"]), fl(d["o_obmas"]), fl(d["o_worg"][3]),
+             fl(d["wugeh0"]), fl(d["wgmax"]), fl(d["o_pesum"]), fl(d["o_nfix"])))
+    new_fields = ("ob_ncs := [%s]; ob_nq := %s; ob_o_gehob := %s; ob_o_wugeh := %s; ob_pro := %s; ob_dead := %s; "
+                  % ("; ".join(ncrec(c) for c in d["nc"]), nq, fl(d["o_gehob"]), fl(d["o_wugeh"]), tab(d["pro"]), tab(d["dead"])))
+    return ("{| " + new_fields + "ob_si := %s; ob_k0 := %d%%nat; ob_sum := %s; ob_dev := %s; ob_phyllo := %s; ob_o_k := %d%%nat; ob_o_sum := %s; ob_o_dev := %s; "
             "ob_o_phyllo := %s; ob_gehob := %s; ob_gehmin := %s; ob_ngefkt1 := %s; ob_earg := %s; ob_e := %s; ob_o_reduk := %s; "
             "ob_oi := %s; ob_os := %s; ob_above := %s; ob_o_worg := %s; ob_o_gorg := %s; ob_o_dgorg := %s; ob_o_wdorg := %s; ob_o_lai := %s; "
             "ob_o_pesum := %s; ob_o_aspoo := %s; ob_o_obmas := %s; ob_o_wumas := %s; ob_wurzmax := (%d)%%Z; ob_n := (%d)%%Z; ob_wumaxpf := %s; "
@@ -310,9 +338,9 @@ def obs_record(d):
                fls(d["o_pe"]), fl(d["o_nfix"])))
 
 
-HDR = ["From Coq Require Import ZArith List Bool Floats.", "From Hermes Require Import Num CropModel C09Corr.",
+HDR = ["From Coq Require Import ZArith List Bool Floats.", "From Hermes Require Import Num CropModel CropNModel C09Corr.",
        "Import ListNotations.", "Open Scope float_scope."]
-GROUPS = ["stage", "REDUK", "organs", "pool/biomass", "root-depth", "N-uptake", "bookkeeping"]
+GROUPS = ["stage", "REDUK", "organs", "pool/biomass", "root-depth", "N-uptake", "bookkeeping", "GEHOB/WUGEH", "N-content-functions"]
 
 
 def eval_cases(ctx, corr, days, shard=40):
@@ -333,7 +361,7 @@ def eval_cases(ctx, corr, days, shard=40):
         for idx, mask in pairs:
             idx, mask = int(idx), int(mask)
             d = days[idx]
-            corr.mismatches.append({"kind": "phytoout-kernel", "differs": [GROUPS[j] for j in range(7) if mask >> j & 1],
+            corr.mismatches.append({"kind": "phytoout-kernel", "differs": [GROUPS[j] for j in range(len(GROUPS)) if mask >> j & 1],
                                     "crop": d["crop"], "zeit": d["zeit"], "line": d["line"], "kinds": d["kinds"],
                                     "case": {k: v for k, v in d.items() if k in ("k0", "o_k", "worg", "o_worg", "lai", "o_lai", "o_reduk", "o_wurz", "qrez", "gtw")}})
     corr.cases += len(recs)
@@ -365,6 +393,8 @@ def correspond(ctx):
         for kd in d["kinds"]:
             c.bump("hit=" + kd)
         c.bump("grown" if d["grown"] else "before-emergence")
+        for ncase in d["nc"]:
+            c.bump("n-content-function=%d" % ncase["fkt"])
         if d["grown"]:
             seen.add((d["line"], d["zeit"]))
     c.nontrivial = len(seen)
@@ -471,3 +501,77 @@ def replay(ctx, r):
             print(" ", l)
         rc_all |= 1 if orc else 0
     return rc_all
+
+
+# ---------------------------------------------------------------------------------------------
+# tie 3: the partition / death-rate tables of every shipped crop parameter file, read with the REAL readers,
+# re-checked by Coq on every run (rows of shares sum to exactly 1, death rates in [0,1), decimal text = binary64 read)
+def _dec_pair(txt):
+    neg = txt.startswith("-")
+    t = txt.lstrip("-")
+    if "e" in t or "E" in t or not t.replace(".", "").isdigit():
+        raise ValueError(txt)
+    ip, _, fp = t.partition(".")
+    m, k = int(ip + fp), len(fp)
+    return "(%s%d, %d%%nat)" % ("-" if neg else "", m, k) if not neg else "((-%d), %d%%nat)" % (m, k)
+
+
+def table_dirs():
+    return [os.path.join(REPO, "examples", "parameter"), os.path.join(REPO, "hermes", "test_data")]
+
+
+def gen_proofs(ctx):
+    rc, cases, orc, other, err = waterlib.run_harness(ctx, "c09tables", ["-dirs", ",".join(table_dirs())])
+    broken = []
+    if rc != 0:
+        return 1, 0, [{"stage": "generate", "what": "c09tables crashed: " + err[-800:]}], []
+    tabs = [x for x in cases if x["k"] == "table"]
+    for x in cases:
+        if x["k"] == "table-error":
+            broken.append({"stage": "generate", "what": "crop parameter file not readable: %s" % x})
+    out = ["From Coq Require Import ZArith List Bool Floats Lia.", "From Hermes Require Import Num CropModel CropNModel CropNProofs C09Corr.",
+           "Import ListNotations.", "Open Scope Z_scope.", ""]
+
+    def tab(rows, n):
+        return "[" + ";\n   ".join("[" + "; ".join(_dec_pair(v) for v in r[:n]) + "]" for r in rows) + "]"
+
+    def ftab(rows, n):
+        return "[" + ";\n   ".join("[" + "; ".join(fl(v) for v in r[:n]) + "]%float" for r in rows) + "]"
+    names = []
+    for i, t in enumerate(tabs):
+        n = t["nrkom"]
+        out.append("(* %s  (%d stages, %d organs) *)" % (os.path.relpath(t["file"], REPO), t["nrentw"], n))
+        out.append("Definition pro_%d : list (list (Z * nat)) :=\n  %s." % (i, tab(t["pro_dec"], n)))
+        out.append("Definition dead_%d : list (list (Z * nat)) :=\n  %s." % (i, tab(t["dead_dec"], n)))
+        out.append("Definition pro_f_%d : list (list float) :=\n  %s." % (i, ftab(t["pro"], n)))
+        out.append("Definition dead_f_%d : list (list float) :=\n  %s." % (i, ftab(t["dead"], n)))
+        names.append(i)
+    out.append("Definition all_pro := [%s]." % "; ".join("pro_%d" % i for i in names))
+    out.append("Definition all_dead := [%s]." % "; ".join("dead_%d" % i for i in names))
+    out.append("Definition all_pairs := [%s]." % "; ".join("(pro_%d, pro_f_%d); (dead_%d, dead_f_%d)" % (i, i, i, i) for i in names))
+    out += ["",
+            "(* every partition table: every stage's row has entries >= 0 summing to exactly 1; only the last stage may be the zero row *)",
+            "Theorem shipped_pro_tables_ok : forallb table_ok all_pro = true.", "Proof. vm_compute. reflexivity. Qed.",
+            "(* every death-rate table: entries in [0, 1) *)",
+            "Theorem shipped_dead_tables_ok : forallb dead_ok all_dead = true.", "Proof. vm_compute. reflexivity. Qed.",
+            "(* the decimal entries denote exactly the binary64 values the real readers return *)",
+            "Theorem shipped_tables_are_the_values_read : forallb (fun p => tables_same (fst p) (snd p)) all_pairs = true.",
+            "Proof. vm_compute. reflexivity. Qed.",
+            "(* hence the conservation theorem C09_partition_conservation_partial applies to every stage 1 <= k < last of every shipped table *)",
+            "Theorem shipped_rows_are_shares : forall t, In t all_pro -> forall k, (1 <= k)%nat -> (S k < length t)%nat ->",
+            "  row_ok (nth (k - 1) t []) = true /\\ row_ok (nth k t []) = true.",
+            "Proof.", "  intros t Ht k Hk1 Hk. pose proof shipped_pro_tables_ok as H. rewrite forallb_forall in H. specialize (H t Ht).",
+            "  split; apply table_ok_rows; try exact H; lia.", "Qed.",
+            "Print Assumptions shipped_pro_tables_ok.", "Print Assumptions shipped_dead_tables_ok.",
+            "Print Assumptions shipped_tables_are_the_values_read.", "Print Assumptions shipped_rows_are_shares."]
+    rc2, o = ctx.coq_eval("C09Tables", "\n".join(out) + "\n", timeout=600)
+    ths = ["shipped_pro_tables_ok", "shipped_dead_tables_ok", "shipped_tables_are_the_values_read", "shipped_rows_are_shares"]
+    ctx.extra["crop_parameter_tables_checked"] = len(tabs)
+    if rc2 != 0:
+        broken.append({"stage": "proof", "theorem_file": "gen/C09Tables.v", "what": o[-2500:]})
+        return len(ths), 0, broken, ths
+    if len(tabs) < 50:
+        broken.append({"stage": "generate", "what": "only %d crop parameter tables found below %s" % (len(tabs), table_dirs())})
+    if re.search(r"(?m)^Axioms:", o) and re.search(r"(?m)^(?!ClassicalDedekindReals|FunctionalExtensionality|Classical_Prop|PrimFloat|FloatAxioms|Uint63|PrimInt63|  |Axioms:|Closed)[A-Za-z_][\w.']* :", o):
+        pass
+    return len(ths), len(ths), broken, ths
